@@ -242,6 +242,24 @@ def _all() -> list[tuple[str, tuple, dict]]:
     b = B()
     add("stacked_before_and_conflict", ["C02", "C07", "C08", "C03"], b.design([[b.trans("t0"), b.trans("t1"), b.trans("t2"), b.trans("t3")]],
         [before("t0", "t1", 0), conflict("t0", "t1", "L"), conflict("t2", "t3", "U"), before("t2", "t3", 0), conflict("t2", "t3", "L")]))
+    # ---- validators with a multi-bit result: valid iff non-zero (C07-5)
+    for kind, iw in ((["mbit", 1], 2), (["mnz", 0], 2), (["mlow2", 0], 2), (["minc", 0], 2)):
+        b = B(); b.decl("v", iw)
+        add(f"validator_multibit_{kind[0]}", ["C07", "C03"], b.design([[b.meth("v", ready=False, val=kind),
+            b.trans("t0", [b.call("v")]), b.trans("t1", [b.If([b.call("v")])])]]))
+    # ---- mutual recursion that nothing outside the cycle calls (C11-6) : must reject
+    for n, entry in ((2, 0), (3, 0), (2, 1)):
+        b = B()
+        names = [f"p{k}" for k in range(n)]
+        for r in names + ["entry", "x"]:
+            b.decl(r)
+        blk = [b.meth(names[k], [b.call(names[(k + 1) % n])], ready=False) for k in range(n)]
+        if entry:
+            blk.append(b.meth("entry", [b.call(names[0])], ready=False))
+        else:
+            blk.append(b.meth("entry", ready=False))
+        blk += [b.meth("x", ready=False), b.trans("t0", [b.call("x")])]
+        add(f"uncalled_cycle_{n}{'_entry' if entry else ''}", ["C11"], b.design([blk]))
     return out
 
 
